@@ -57,6 +57,10 @@ def _cases(tier, seed):
         cs.append({'scen': 'ttm_dense_matvec', 's': {'M': M, 'N': N, 'RA': RA, 'batch': [2], 'dtype': dt}})
         for op in ('add', 'sub', 'mul'):
             cs.append({'scen': 'ttm_binop', 's': {'op': op, 'M': M, 'N': N, 'RA': RA, 'RB': [1, 1, 1], 'dtype': dt}})
+    # dense operands of another dtype than the operator (refused, or the product in the promoted dtype)
+    for dt, dtx in (('float64', 'complex128'), ('complex128', 'float64'), ('float32', 'float64'), ('float64', 'float32')):
+        for M, N, RA, batch in [([2], [3], [1, 1], []), ([2, 1], [1, 3], [1, 2, 1], [2])]:
+            cs.append({'scen': 'ttm_dense_matvec', 's': {'M': M, 'N': N, 'RA': RA, 'batch': batch, 'dtype': dt, 'dtype_x': dtx}})
     # scalar operations on operators
     for M, N, RA in [([2], [3], [1, 1]), ([2, 1], [1, 3], [1, 2, 1]), ([1, 2, 2], [2, 1, 2], [1, 2, 2, 1]), ([2, 2], [1, 3], [1, 1, 1]), ([2, 1, 2], [1, 2, 2], [1, 2, 1, 1]),
                      ([2, 1, 2], [1, 2, 2], [1, 1, 2, 1])]:
